@@ -52,8 +52,18 @@ def cases(run: Run):
         if e - s < 0.25:
             e = s + 0.5
         thrust = rng.choice(["eci", "ntw", "spiral", "plane"])
-        out.append({"dt": dt, "N": N, "s": s, "e": e, "kind": kind, "thrust": thrust, "model": rng.choice(["sp", "sp", "two_body"]),
-                    "orbit": rng.choice(["leo", "geo"]), "late": rng.choice([0, 0, 0, 432000, 1728000])})
+        c = {"dt": dt, "N": N, "s": s, "e": e, "kind": kind, "thrust": thrust, "model": rng.choice(["sp", "sp", "two_body"]),
+             "orbit": rng.choice(["leo", "geo"]), "late": rng.choice([0, 0, 0, 432000, 1728000])}
+        # a second burn of the same agent, starting in the step in which the first one ends (so both are queued for that step) or later
+        if rng.random() < 0.35 and e + 2.0 < span - 2.0:
+            k_end = int(e // dt)  # the step [k_end*dt, (k_end+1)*dt] contains the end of the first burn
+            hi = min(span - 1.5, (k_end + 1) * dt - 0.5) if rng.random() < 0.7 else span - 1.5
+            if hi > e + 1.0:
+                s2 = round(rng.uniform(e + 0.5, hi) * 64) / 64
+                e2 = round(min(span - 1.0, s2 + rng.uniform(0.5, 1.5 * dt)) * 64) / 64
+                if e2 - s2 >= 0.25:
+                    c.update(s2=s2, e2=e2, thrust2=rng.choice(["eci", "ntw", "spiral", "plane"]))
+        out.append(c)
     return out
 
 
@@ -101,6 +111,10 @@ def impl_run(c):
     dt, N, s, e = c["dt"], c["N"], c["s"] + c["late"], c["e"] + c["late"]
     f, cls = thrust_func(c["thrust"])
     Ev = ScheduledFiniteBurn if cls == "burn" else ScheduledFiniteManeuver
+    burns = [(s, e, f, Ev)]
+    if "s2" in c:
+        f2, cls2 = thrust_func(c["thrust2"])
+        burns.append((c["s2"] + c["late"], c["e2"] + c["late"], f2, ScheduledFiniteBurn if cls2 == "burn" else ScheduledFiniteManeuver))
     dyn = make_dynamics(c["model"])
     pushed = []
     old = ft.EventStack.pushEvent
@@ -112,8 +126,9 @@ def impl_run(c):
         for k in range(1, N + 1):
             t0, t1 = c["late"] + (k - 1) * dt, c["late"] + k * dt
             # the data event is relevant in every step its interval overlaps (C01): each such step appends an equal event object
-            if s <= t1 and t0 < e:
-                agent.propagate_event_queue.append(Ev(ScenarioTime(s), ScenarioTime(e), f, 10001))
+            for bs, be, bf, bEv in burns:
+                if bs <= t1 and t0 < be:
+                    agent.propagate_event_queue.append(bEv(ScenarioTime(bs), ScenarioTime(be), bf, 10001))
             agent._time = ScenarioTime(t0)
             Agent.prunePropagateEvents(agent)
             n0 = len(pushed)
@@ -130,12 +145,17 @@ def impl_run(c):
     # independent reference: coast, thrust switched on exactly on [s, e], coast
     ref = make_dynamics(c["model"])
     T0, T1 = float(c["late"]), float(c["late"] + N * dt)
-    y = ref.propagate(ScenarioTime(T0), ScenarioTime(s), x0_of(c["orbit"]).copy()) if s > T0 else x0_of(c["orbit"]).copy()
-    ref.finite_thrust = f
-    sol = solve_ivp(partial(ref._differentialEquation, check_collision=False), (s, e), y, method="RK45", rtol=ref.RELATIVE_TOL, atol=ref.ABSOLUTE_TOL)
-    y = sol.y[:, -1]
-    ref.finite_thrust = None
-    y = ref.propagate(ScenarioTime(e), ScenarioTime(T1), y) if e < T1 else y
+    y = x0_of(c["orbit"]).copy()
+    t_now = T0
+    for bs, be, bf, _ in burns:
+        if bs > t_now:
+            y = ref.propagate(ScenarioTime(t_now), ScenarioTime(bs), y)
+        ref.finite_thrust = bf
+        sol = solve_ivp(partial(ref._differentialEquation, check_collision=False), (bs, be), y, method="RK45", rtol=ref.RELATIVE_TOL, atol=ref.ABSOLUTE_TOL)
+        y = sol.y[:, -1]
+        ref.finite_thrust = None
+        t_now = be
+    y = ref.propagate(ScenarioTime(t_now), ScenarioTime(T1), y) if t_now < T1 else y
     coast = make_dynamics(c["model"]).propagate(ScenarioTime(T0), ScenarioTime(T1), x0_of(c["orbit"]).copy())
     return {"final": [float(v) for v in x], "ref": [float(v) for v in y], "coast": [float(v) for v in coast], "switches": switches}
 
@@ -176,7 +196,8 @@ def oracle(run: Run, c, impl):
     if dvel > tol_v or dpos > max(2e-6, 1e-4 * float(np.linalg.norm(ref[:3] - coast[:3]))):
         ivs = intervals_from_switches(c, i["switches"])
         on = sum((b - a) for iv in ivs if iv for a, b in [iv])
-        fails.append(("trajectory", f"{c['model']} {c['thrust']} thrust [{c['s']},{c['e']}] s (+{c['late']}) with {c['dt']} s steps: final state differs from the reference "
+        second = f" followed by {c['thrust2']} thrust [{c['s2']},{c['e2']}] s" if "s2" in c else ""
+        fails.append(("trajectory", f"{c['model']} {c['thrust']} thrust [{c['s']},{c['e']}] s{second} (+{c['late']}) with {c['dt']} s steps: final state differs from the reference "
                                     f"integration by {dvel:.3g} km/s / {dpos:.3g} km (thrust effect {effect:.3g} km/s); thrust was on for {on:.4f} s, configured {c['e'] - c['s']:.4f} s"))
     return fails
 
@@ -189,8 +210,8 @@ def run_cases(run: Run, cs):
         lines.append(f"burn.calls phaseSwitch {fmt(Fraction(c['s']) + c['late'])} {fmt(Fraction(c['e']) + c['late'])} {len(ts)} " + " ".join(fmt(t) for t in ts))
     outs = run.model(lines)
     for idx, (c, i) in enumerate(zip(cs, impls)):
-        run.case("burn", c, nontrivial=True, branch=f"{c['kind']}:{c['model']}")
-        if outs is not None and i[0] == "ok":
+        run.case("burn", c, nontrivial=True, branch=f"{c['kind']}:{c['model']}" + (":two-burns" if "s2" in c else ""))
+        if outs is not None and i[0] == "ok" and "s2" not in c:  # the per-call interval model is for one burn; two-burn cases are judged on the trajectory
             run.model_compared += 1
             mo = outs[idx].split()
             if mo[0] == "bad-op":
